@@ -250,7 +250,9 @@ def traj_scenario(c, k):
             L += bias_block(b)
         return heredoc(L)
     seg = 0
-    L = ["echo CASE %d" % k, "natoms %d" % nat, "temperature 300", "dt %r" % c["dt"], "prefix c%ds%d" % (k, seg), "new"]
+    L = ["echo CASE %d" % k, "natoms %d" % nat, "temperature 300", "dt %r" % c["dt"], "prefix c%ds%d" % (k, seg)]
+    L += ["samestep 0", "includecv 0"] if c.get("lagged") else ["samestep 1", "includecv 1"]
+    L.append("new")
     if c["it0"]:
         L.append("setstep %d" % c["it0"])
     L += conf() + ["show atomf 0 cv 0 bias 0 energy 0"]
@@ -265,6 +267,9 @@ def traj_scenario(c, k):
                     L.append("pos %d %s %s %s" % (2 * vid + 1, hx(x[0]), hx(x[1]), hx(x[2])))
                 else:
                     L.append("pos %d 0 0 %s" % (2 * vid + 1, hx(x)))
+            if len(ev) > 2 and ev[2]:
+                for vid, f in ev[2].items():
+                    L.append("eforce %d 0 0 %s" % (2 * int(vid) + 1, hx(f)))
             L += ["step", "idump"]
         elif ev[0] == "boundary":
             L += ["runboundary"]
@@ -390,9 +395,23 @@ def fixed_centres_oracle(run, c, lab, fields, step, replay):
         if lab.count(nm) != 1:
             continue
         owners = [b for b in allb if b.get("centers") and v["id"] in b["vars"] and b["kind"] in ("harmonic", "linear", "alb")]
-        if len(owners) != 1 or owners[0].get("chgc"):
+        if len(owners) != 1:
             continue
         b = owners[0]
+        if b.get("chgc"):
+            # moving centres (C06: centre(t) = c0 + (c1 - c0) min(t - t0, N)/N, t0 the first step of the simulation);
+            # only for restraints defined from the start, on scalar variables
+            if b not in c["biases"] or v["type"] != "z":
+                continue
+            i = b["vars"].index(v["id"])
+            lam = Fr(min(max(step - c["it0"], 0), b["N"]), b["N"])
+            want = float(Fr(b["c"][i]) + (Fr(b["tc"][i]) - Fr(b["c"][i])) * lam)
+            got = fields[lab.index(nm)]
+            run.dist("oracle:moving-centre")
+            if not close(got, want, OTOL):
+                run.violation("trajfields:moving-centre", "step %d column %s holds %r, the scheduled centre of bias b%d is %r"
+                              % (step, nm, got, b["id"], want), replay)
+            continue
         want = 1.5 if b["kind"] == "alb" else b["c"][b["vars"].index(v["id"])]
         want = [float(q) for q in want] if isinstance(want, (list, tuple)) else float(want)
         got = fields[lab.index(nm)]
@@ -424,7 +443,7 @@ def sq(a, b):
     return (Fr(a) - Fr(b)) ** 2
 
 
-def forces_energy_oracle(run, c, j, pos, lab, fields, step, replay):
+def forces_energy_oracle(run, c, j, pos, lab, fields, step, replay, efh=None, first_of_segment=False):
     """textbook values of the columns ft_ (the engine's force on the variable), fa_ (sum of the restraint forces)
     and E_ (harmonic energy) where python can compute them: fixed-centre, fixed-k harmonic restraints"""
     live = live_biases(c, j)
@@ -433,13 +452,23 @@ def forces_energy_oracle(run, c, j, pos, lab, fields, step, replay):
         if v["type"] != "z" or v.get("extlag") or v["id"] not in pos:
             continue
         nm = "v%d" % v["id"]
-        if "ft_" + nm in lab and c.get("eforce") and lab.count("ft_" + nm) == 1:
+        if "ft_" + nm in lab and c.get("eforce") and lab.count("ft_" + nm) == 1 and efh is not None:
             got = fields[lab.index("ft_" + nm)]
-            want = float(c["eforce"][v["id"]])
-            run.dist("oracle:total-force")
-            if not close(got, want, OTOL):
-                run.violation("trajfields:total-force", "step %d column ft_%s holds %r, the engine's force on the variable is %r"
-                              % (step, nm, got, want), replay)
+            if not c.get("lagged"):
+                want = float(efh[j][v["id"]])
+                run.dist("oracle:total-force")
+                if not close(got, want, OTOL):
+                    run.violation("trajfields:total-force", "step %d column ft_%s holds %r, the engine's force on the variable is %r"
+                                  % (step, nm, got, want), replay)
+            elif j > 0 and not first_of_segment:
+                # forces delivered one step late (documented for such engines): the line of step t carries the force exerted
+                # at the previous evaluation
+                want = float(efh[j - 1][v["id"]])
+                run.dist("oracle:total-force-lagged")
+                if not close(got, want, OTOL):
+                    run.violation("trajfields:total-force-lagged", "step %d column ft_%s holds %r; with total forces delivered one step "
+                                  "late it is the force exerted at the previous evaluation, %r (the force at this step is %r)"
+                                  % (step, nm, got, want, float(efh[j][v["id"]])), replay)
         mine = [b for b in live if v["id"] in b["vars"]]
         if "fa_" + nm in lab and lab.count("fa_" + nm) == 1 and all(simple(b) for b in mine):
             want = Fr(0)
@@ -485,6 +514,9 @@ def check_traj_case(run, c, k, impl_lines, scratch, model):
     calcs, misc = parse_dump(impl_lines)
     ncalc = sum(1 for e in c["events"] if e[0] == "step")
     replay = {"kind": "traj", "case": c}
+    if any(l.startswith("LOAD err=") and "err=ok" not in l for l in misc):
+        run.dist("traj:skipped-load-error")
+        return 0
     if len(calcs) != ncalc or any(cc["err"] != "ok" for cc in calcs) or any(l.startswith("CONFIG err=") and "err=ok" not in l for l in misc) \
             or any(l.startswith("SCRIPT err=") and "err=ok" not in l for l in misc):
         run.mismatch("trajrun", c, [l for l in impl_lines if "err=" in l][:6], "every step and configuration succeeds")
@@ -527,11 +559,17 @@ def check_traj_case(run, c, k, impl_lines, scratch, model):
             imposed.setdefault(calcs[j]["it"], []).append(j)
         pos = {}
         poshist = []   # per calc index: {vid: value}
+        efh = []       # per calc index: {vid: engine force on the variable}
+        ef = {v["id"]: c["eforce"][v["id"]] for v in c["vars"]} if c.get("eforce") else {}
         for ev in c["events"]:
             if ev[0] == "step":
                 for vid, x in ev[1].items():
                     pos[int(vid)] = x
                 poshist.append(dict(pos))
+                if len(ev) > 2 and ev[2]:
+                    for vid, f in ev[2].items():
+                        ef[int(vid)] = f
+                efh.append(dict(ef))
         lab = None
         seen = {}
         for l in flines:
@@ -545,7 +583,7 @@ def check_traj_case(run, c, k, impl_lines, scratch, model):
                 continue
             j = js[n]
             fixed_centres_oracle(run, c, lab, l[2], l[1], replay)
-            forces_energy_oracle(run, c, j, poshist[j], lab, l[2], l[1], replay)
+            forces_energy_oracle(run, c, j, poshist[j], lab, l[2], l[1], replay, efh, l[1] == s["it_restart"])
             for v in c["vars"]:
                 nm = "v%d" % v["id"]
                 if nm in lab and v["id"] in poshist[j]:
@@ -694,6 +732,13 @@ def gen_traj_case(r, tier):
             else:
                 d[str(v["id"])] = [V.dyadic(r, -4, 4, 3) for _ in range(3)]
         return d
+    _step_append = events.append
+
+    def add_step_forces(e):
+        # a new engine force on every scalar variable at every step
+        if e[0] == "step" and len(e) == 2:
+            e.append({str(v["id"]): r.choice([-1, 1]) * V.dyadic(r, 0.5, 3, 2) for v in vars_ if v["type"] == "z"})
+        return e
     events.append(["step", newpos()])
     cur_b = [b["id"] for b in biases]
     allb = list(biases)
@@ -738,7 +783,20 @@ def gen_traj_case(r, tier):
             continue
         events.append(["step", newpos()])
     eforce = [r.choice([-1, 1]) * V.dyadic(r, 0.5, 3, 2) for _ in vars_]
-    return {"kind": "traj", "freq": freq, "it0": it0, "dt": dt, "vars": vars_, "biases": biases, "events": events, "eforce": eforce}
+    if any(bb["kind"] == "alb" for bb in allb):
+        # an ALB bias cannot be restarted from a state file (C03 known finding load:alb): no restarts in such cases
+        events = [e for e in events if e[0] != "restart"]
+    # repeated steps (after a boundary / restart) keep the engine force of the first evaluation
+    prev = None
+    for e in events:
+        if e[0] == "step":
+            if prev is not None and e[1] is prev[1]:
+                e.append(prev[2])
+            else:
+                add_step_forces(e)
+            prev = e
+    return {"kind": "traj", "freq": freq, "it0": it0, "dt": dt, "vars": vars_, "biases": biases, "events": events, "eforce": eforce,
+            "lagged": r.random() < 0.3}
 
 
 # ------------------------------------------------------------------ running average cases
@@ -893,6 +951,422 @@ def gen_runave_case(r, tier):
     return {"kind": "runave", "L": L, "stride": stride, "it0": it0, "events": events}
 
 
+
+# ------------------------------------------------------------------ running average: any value type, any start
+PERIOD = 8.0
+
+
+def wrapz(x, P=PERIOD):
+    return x - math.floor(x / P + 0.5) * P
+
+
+def vvar_block(vtype, vid, extra=()):
+    L = ["colvar {", "  name v%d" % vid] + list(extra)
+    a, b = 2 * vid + 1, 2 * vid + 2
+    if vtype in ("z", "zper"):
+        L += ["  distanceZ {", "    main { atomNumbers %d }" % a, "    ref { dummyAtom (0,0,0) }", "    axis (0,0,1)"]
+        if vtype == "zper":
+            L += ["    period %r" % PERIOD, "    wrapAround 0.0"]
+        L += ["  }"]
+    elif vtype == "vec":
+        L += ["  distanceVec {", "    group1 { atomNumbers %d }" % b, "    group2 { atomNumbers %d }" % a, "  }"]
+    else:
+        L += ["  distanceDir {", "    group1 { atomNumbers %d }" % b, "    group2 { atomNumbers %d }" % a, "  }"]
+    L.append("}")
+    return L
+
+
+def runavev_scenario(c, k):
+    extra = ["  runAve on", "  runAveLength %d" % c["L"], "  runAveStride %d" % c["stride"]]
+    dummy = vvar_block("z", 1)
+    main = vvar_block(c["vtype"], 0, extra)
+    seg = 0
+    L = ["echo CASE %d" % k, "natoms 4", "temperature 300", "dt 1.0", "prefix c%ds%d" % (k, seg), "new"]
+    if c["it0"]:
+        L.append("setstep %d" % c["it0"])
+    L += heredoc(["colvarsTrajFrequency 0"] + dummy + (main if c["t0"] == 0 else []))
+    L += ["show atomf 0 cv 1 bias 0 energy 0"]
+    nstep = 0
+    for ev in c["events"]:
+        if ev[0] == "step":
+            if nstep == c["t0"] and c["t0"] > 0:
+                L += heredoc(main)
+            x = ev[1]
+            if isinstance(x, (list, tuple)):
+                L.append("pos 1 %s %s %s" % (hx(x[0]), hx(x[1]), hx(x[2])))
+            else:
+                L.append("pos 1 0 0 %s" % hx(x))
+            L.append("step")
+            nstep += 1
+        elif ev[0] == "boundary":
+            L.append("runboundary")
+        elif ev[0] == "restart":
+            seg += 1
+            f = "c%d_%d.state" % (k, seg)
+            L += ["flush", "save text %s" % f, "prefix c%ds%d" % (k, seg), "fresh"] + heredoc(["colvarsTrajFrequency 0"] + dummy + main) + ["load %s" % f]
+    L += ["flush", "echo END %d" % k]
+    return L
+
+
+def vdist2(vtype, a, b):
+    if vtype == "zper":
+        d = a[0] - b[0]
+        d -= math.floor(d / PERIOD + 0.5) * PERIOD
+        return d * d
+    if vtype == "unit":
+        cs = sum(x * y for x, y in zip(a, b))
+        cs = max(-1.0, min(1.0, cs))
+        return math.acos(cs) ** 2
+    return sum((x - y) ** 2 for x, y in zip(a, b))
+
+
+def check_runavev_case(run, c, k, impl_lines, scratch, model):
+    replay = {"kind": "runavev", "case": c}
+    if any(l.startswith("CONFIG err=") and "err=ok" not in l for l in impl_lines) or any(l.startswith("STEP") and "err=ok" not in l for l in impl_lines):
+        bad = [l for l in impl_lines if l.startswith("STEP") and "err=ok" not in l]
+        if bad and not any(l.startswith("CONFIG err=") and "err=ok" not in l for l in impl_lines):
+            run.violation("runave:step-error:" + c["vtype"], "the running average of a variable of type %s makes the step fail: %s"
+                          % (c["vtype"], bad[0]), replay)
+        else:
+            run.mismatch("runavev-run", c, [l for l in impl_lines if "err=" in l][:6], "every step and configuration succeeds")
+        return 0
+    # the values the implementation computed for v0, one per calc in which v0 exists
+    vals = []
+    cur = None
+    for l in impl_lines:
+        if l.startswith("STEP "):
+            cur = {"it": int(l.split()[1]), "v0": None}
+            vals.append(cur)
+        elif l.startswith("CV v0 ") and cur is not None:
+            cur["v0"] = [float.fromhex(t) for t in l.split()[2:]]
+    # segments: (it_restart, first relative step of the analysis, [(rel, it, value)])
+    segs = []
+    it = c["it0"]
+    curseg = {"it_restart": it, "hist": []}
+    first, boundary = True, False
+    j = 0
+    for ev in c["events"]:
+        if ev[0] == "step":
+            if first:
+                first = False
+            elif not boundary:
+                it += 1
+            boundary = False
+            if j < len(vals) and vals[j]["v0"] is not None:
+                curseg["hist"].append((it - curseg["it_restart"], it, vals[j]["v0"]))
+            j += 1
+        elif ev[0] == "boundary":
+            boundary = True
+        elif ev[0] == "restart":
+            segs.append(curseg)
+            curseg = {"it_restart": it, "hist": []}
+            first, boundary = True, False
+    segs.append(curseg)
+    vt = c["vtype"]
+    kind = {"z": "scalar", "zper": "periodic %s" % hx(PERIOD), "vec": "vector3", "unit": "unit"}[vt]
+    # imposed values (oracle): the implementation's values must be the imposed ones
+    jj = 0
+    for ev in c["events"]:
+        if ev[0] != "step":
+            continue
+        if jj < len(vals) and vals[jj]["v0"] is not None and vt != "unit":
+            want = [wrapz(ev[1])] if vt == "zper" else ([float(ev[1])] if vt == "z" else [float(q) for q in ev[1]])
+            if not close(vals[jj]["v0"], want, OTOL):
+                run.mismatch("runavev-values", c, vals[jj]["v0"], want)
+                return 0
+        jj += 1
+    lines = []
+    for s in segs:
+        dim = len(s["hist"][0][2]) if s["hist"] else 1
+        lines.append("RUNAVEV %s %d %d %d %d %d %s" % (kind, c["L"], c["stride"], s["it_restart"], dim, len(s["hist"]),
+                                                     " ".join("%d %s" % (t, " ".join(hx(q) for q in x)) for t, it, x in s["hist"])))
+    rc, mout, err = V.run_lines(model, lines)
+    if rc != 0 or len(mout) != len(segs):
+        run.mismatch("runavev-model", c, err[-300:], mout[:2])
+        return 0
+    n = 0
+    L, st = c["L"], c["stride"]
+    for si, s in enumerate(segs):
+        rows = []
+        path = os.path.join(scratch, "c%ds%d.v0.runave.traj" % (k, si))
+        if os.path.exists(path):
+            for line in open(path):
+                t = line.split()
+                if t and not t[0].startswith("#"):
+                    f = parse_fields(t[1:])
+                    av = f[0] if isinstance(f[0], list) else [f[0]]
+                    rows.append((int(t[0]), av, f[1]))
+        xs = {}
+        for t, it, x in s["hist"]:
+            xs.setdefault(t, x)
+        if not xs:
+            continue
+        tstart, tmax = min(xs), max(xs)
+        # ---- oracle: lines exactly where L strided samples after the first evaluation exist
+        want_steps = [t for t in range(tstart + 1, tmax + 1) if t % st == 0 and t - (L - 1) * st > tstart]
+        got_steps = [stp - s["it_restart"] for stp, _, _ in rows]
+        if got_steps != want_steps:
+            sig = "runave:lines" + (":off-grid-start" if tstart % st else "")
+            run.violation(sig, "analysis starting at relative step %d, stride %d, window %d: lines at relative steps %s, full windows of "
+                          "evenly spaced samples end at %s" % (tstart, st, L, got_steps[:10], want_steps[:10]), replay)
+            continue
+        for stp, av, sd in rows:
+            t = stp - s["it_restart"]
+            win = [xs[t - jx * st] for jx in range(L)]
+            run.dist("oracle:runavev-line:" + vt)
+            if vt == "zper":
+                # values seen from x(t) through the shortest image (window narrower than half a period)
+                y = [win[0][0] + (w[0] - win[0][0] - math.floor((w[0] - win[0][0]) / PERIOD + 0.5) * PERIOD) for w in win]
+                m = sum(y) / L
+                dm = av[0] - m
+                dm -= math.floor(dm / PERIOD + 0.5) * PERIOD
+                if not (-PERIOD / 2 - 1e-9 <= av[0] < PERIOD / 2 + 1e-9):
+                    run.violation("runave:periodic-range", "step %d: reported average %r of a variable wrapped into [%g, %g)"
+                                  % (stp, av[0], -PERIOD / 2, PERIOD / 2), replay)
+                    continue
+                if abs(dm) > 1e-9:
+                    run.violation("runave:periodic-wrap", "step %d: window %s of a variable with period %g: reported average %r, the values "
+                                  "seen through the shortest image %s average to %r" % (stp, [w[0] for w in win], PERIOD, av[0], y, m), replay)
+                    continue
+                wantsd = math.sqrt(sum((q - m) ** 2 for q in y) / (L - 1)) if L > 1 else None
+            else:
+                m = [sum(w[i] for w in win) / L for i in range(len(win[0]))]
+                if vt == "unit":
+                    nrm = math.sqrt(sum(q * q for q in m))
+                    m = [q / nrm for q in m]
+                if not close(av, m, 1e-9):
+                    run.violation("runave:mean:" + vt, "step %d: running average %r, the mean of the window %s is %r" % (stp, av, win, m), replay)
+                    continue
+                wantsd = math.sqrt(sum(vdist2(vt, w, m) for w in win) / (L - 1)) if L > 1 else None
+            if wantsd is not None and not close(sd, wantsd, 1e-7):
+                run.violation("runave:stddev:" + vt, "step %d: running stddev %r, the sample standard deviation of the window in the "
+                              "variable's metric is %r" % (stp, sd, wantsd), replay)
+        # ---- tie
+        mrows = []
+        for part in mout[si].split(" ; "):
+            t = part.split()
+            if t:
+                mrows.append((int(t[0]), [float.fromhex(q) for q in t[1].split(",")], float.fromhex(t[3])))
+        if [r_[0] for r_ in rows] != [r_[0] for r_ in mrows]:
+            run.mismatch("runave:steps", c, [r_[0] for r_ in rows][:12], [r_[0] for r_ in mrows][:12])
+            continue
+        for a, b in zip(rows, mrows):
+            n += 1
+            if not close(a[1], b[1], 1e-10):
+                run.mismatch("runave:mean", c, (a[0], a[1]), (b[0], b[1]))
+            elif L > 1 and not close(a[2], b[2], 1e-7):
+                run.mismatch("runave:stddev", c, (a[0], a[2]), (b[0], b[2]))
+    return n
+
+
+def gen_runavev_case(r, tier):
+    vt = r.choice(["z", "zper", "zper", "vec", "unit"])
+    L = r.choice([1, 2, 2, 3, 4])
+    stride = r.choice([1, 2, 2, 3])
+    t0 = r.choice([0, 0, 1, 2, 3, 5])
+    n = t0 + L * stride + r.randint(2, 2 * L * stride + 4) + (r.randint(0, 30) if tier != "quick" else 0)
+    it0 = r.choice([0, 0, r.randint(1, 30)])
+    center = V.dyadic(r, -4, 4, 2)
+
+    def val():
+        if vt == "z":
+            return V.dyadic(r, -8, 8, 3)
+        if vt == "zper":
+            # a band narrower than half a period, anywhere (often across the boundary +-4)
+            return center + V.dyadic(r, -1.5, 1.5, 3)
+        while True:
+            v = [V.dyadic(r, -4, 4, 2) for _ in range(3)]
+            if sum(abs(q) for q in v) > 0.5:
+                return v
+    events = []
+    for i in range(n):
+        u = r.random()
+        if events and i > t0 and u < 0.07:
+            last = [e for e in events if e[0] == "step"][-1]
+            events += [["boundary"], list(last)]
+        elif events and i > t0 + 1 and u < 0.10:
+            last = [e for e in events if e[0] == "step"][-1]
+            events += [["restart"], list(last)]
+        else:
+            events.append(["step", val()])
+    return {"kind": "runavev", "vtype": vt, "L": L, "stride": stride, "t0": t0, "it0": it0, "events": events}
+
+
+
+# ------------------------------------------------------------------ which steps write which files
+def out_scenario(c, k):
+    v = ["colvar {", "  name v0", "  lowerBoundary -16.0", "  upperBoundary 16.0", "  width 1.0", "  corrFunc on", "  corrFuncType coordinate",
+         "  corrFuncLength 1", "  corrFuncStride 1", "  distanceZ {", "    main { atomNumbers 1 }", "    ref { dummyAtom (0,0,0) }", "    axis (0,0,1)", "  }", "}"]
+    bl = []
+    for b, f in c["biases"]:
+        bl += ["histogram {", "  name b%d" % b, "  colvars v0", "  outputFreq %d" % f, "}"]
+    L = ["echo CASE %d" % k, "natoms 2", "temperature 300", "dt 1.0", "prefix c%ds0" % k, "restartfreq %d" % c["R"], "new", "capture"]
+    if c["it0"]:
+        L.append("setstep %d" % c["it0"])
+    L += heredoc(["colvarsTrajFrequency 0"] + v + bl) + ["show atomf 0 cv 0 bias 0 energy 0", "wlog"]
+    for ev in c["events"]:
+        if ev[0] == "step":
+            L += ["pos 1 0 0 %s" % hx(ev[1]), "step", "wlog"]
+        elif ev[0] == "boundary":
+            L.append("runboundary")
+    L += ["postrun", "wlog", "flush", "restartfreq 0", "echo END %d" % k]
+    return L
+
+
+def check_out_case(run, c, k, impl_lines, scratch, model):
+    replay = {"kind": "out", "case": c}
+    if any(l.startswith("CONFIG err=") and "err=ok" not in l for l in impl_lines) or any(l.startswith("STEP") and "err=ok" not in l for l in impl_lines):
+        run.mismatch("out-run", c, [l for l in impl_lines if "err=" in l][:6], "every step and configuration succeeds")
+        return 0
+    got = []
+    for l in impl_lines:
+        if l.startswith("WROTE state"):
+            got.append("state@" + l.split("it=")[1])
+        elif l.startswith("WROTE colvar"):
+            got.append("colvar@" + l.split("it=")[1])
+        elif l.startswith("WROTE bias"):
+            nm = os.path.basename(l.split()[2]).split(".")[1]
+            got.append(nm + "@" + l.split("it=")[1])
+    # event list
+    evs = []
+    it = c["it0"]
+    first, boundary = True, False
+    for ev in c["events"]:
+        if ev[0] == "step":
+            if first:
+                first = False
+            elif not boundary:
+                it += 1
+            boundary = False
+            evs.append(("C", it))
+        else:
+            boundary = True
+    evs.append(("E", it))
+    last = it
+    line = "OUT %d %d %d %s %d %s" % (c["R"], c["it0"], len(c["biases"]), " ".join("%d %d" % (b, f) for b, f in c["biases"]), len(evs),
+                                    " ".join("%s %d" % e for e in evs))
+    rc, mout, err = V.run_lines(model, [line])
+    if rc != 0 or len(mout) != 1:
+        run.mismatch("out-model", c, err[-300:], mout[:2])
+        return 0
+    want = mout[0].split()
+    # ---- oracle: documented frequencies, final files describe the final step, nothing written twice for one calc
+    def steps_of(kind):
+        return [int(g.split("@")[1]) for g in got if g.split("@")[0] == kind]
+    calc_its = [i for t, i in evs if t == "C"]
+    for kind, f in [("colvar", c["R"]), ("state", c["R"])] + [("b%d" % b, fb) for b, fb in c["biases"]]:
+        st = steps_of(kind)
+        run.dist("oracle:outfiles:" + ("bias" if kind.startswith("b") else kind))
+        atfreq = [i for i in calc_its if f and i > c["it0"] and i % f == 0]
+        if not st or st[-1] != last:
+            run.violation("outfiles:%s-not-at-end" % ("bias" if kind.startswith("b") else kind),
+                          "after the end of the run (last step %d) the last write of the %s output file(s) was at step %s"
+                          % (last, kind, st[-1] if st else None), replay)
+        elif kind != "state" and (st[:-1] if not (f and last > c["it0"] and last % f == 0) else st) != atfreq:
+            run.violation("outfiles:schedule", "%s file(s) written at steps %s; its frequency %d gives %s, plus the end of the run"
+                          % (kind, st, f, atfreq), replay)
+    spath = os.path.join(scratch, "c%ds0.colvars.state" % k)
+    if os.path.exists(spath):
+        m = re.search(r"^\s*step\s+(\d+)", open(spath).read(), flags=re.M)
+        run.dist("oracle:state-step")
+        if not m or int(m.group(1)) != last:
+            run.violation("outfiles:state-step", "the state file left by the run says step %s, the last step was %d" % (m.group(1) if m else None, last), replay)
+    if got != want:
+        run.mismatch("outfiles", c, got[:30], want[:30])
+    return len(got)
+
+
+def gen_out_case(r, tier):
+    R = r.choice([0, 0, 2, 3, 4])
+    nb = r.choice([0, 1, 2])
+    biases = [(b, r.choice([0, 1, 2, 3, 5])) for b in range(nb)]
+    it0 = r.choice([0, 0, r.randint(1, 12)])
+    n = r.randint(2, 10) + (r.randint(0, 20) if tier != "quick" else 0)
+    events = []
+    for i in range(n):
+        if events and i > 1 and r.random() < 0.12:
+            last = [e for e in events if e[0] == "step"][-1]
+            events += [["boundary"], list(last)]
+        else:
+            events.append(["step", V.dyadic(r, -8, 8, 2)])
+    return {"kind": "out", "R": R, "biases": biases, "it0": it0, "events": events}
+
+
+
+# ------------------------------------------------------------------ label text (names of any length)
+LABEL_PREFIXES = ["r_", "v_", "vr_", "Ep_", "Ek_", "ft_", "fa_", "x0_", "ref_", "Grad_", "E_", "W_"]
+
+
+def label_scenario(c, k):
+    L = ["echo CASE %d" % k, "natoms 4", "temperature 300", "dt 1.0", "prefix c%ds0" % k, "new"]
+    conf = ["colvarsTrajFrequency 1"]
+    for i, nm in enumerate(c["names"]):
+        conf += ["colvar {", "  name %s" % nm, "  outputVelocity on", "  outputAppliedForce on", "  distanceZ {", "    main { atomNumbers %d }" % (2 * i + 1),
+                 "    ref { dummyAtom (0,0,0) }", "    axis (0,0,1)", "  }", "}"]
+    conf += ["harmonic {", "  name %s" % c["bname"], "  colvars %s" % c["names"][0], "  centers 0.5", "  forceConstant 1.0", "  outputEnergy on", "  outputCenters on", "}"]
+    L += heredoc(conf) + ["show atomf 0 cv 0 bias 0 energy 0", "pos 1 0 0 1.0", "pos 3 0 0 2.0", "step", "pos 1 0 0 1.5", "step", "flush", "echo END %d" % k]
+    return L
+
+
+def check_label_case(run, c, k, impl_lines, scratch, model):
+    replay = {"kind": "label", "case": c}
+    if any(l.startswith("CONFIG err=") and "err=ok" not in l for l in impl_lines):
+        run.mismatch("label-run", c, [l for l in impl_lines if "err=" in l][:4], "configuration succeeds")
+        return 0
+    flines = parse_traj(os.path.join(scratch, "c%ds0.colvars.traj" % k))
+    labs = [l[1] for l in flines if l[0] == "L"]
+    if not labs:
+        run.mismatch("label-run", c, "no label line", "one label line")
+        return 0
+    lab = labs[0]
+    # columns in order, as (prefix, name, width): the structure is that of the model's label list for this configuration
+    cols = []
+    for nm in c["names"]:
+        cols += [("", nm, 21), ("v_", nm, 21), ("fa_", nm, 21)]
+    cols += [("E_", c["bname"], 21), ("x0_", c["names"][0], 21)]
+    rc, mout, err = V.run_lines(model, ["LABEL %d %s %s" % (w, p or "-", n) for p, n, w in cols])
+    if rc != 0 or len(mout) != len(cols):
+        run.mismatch("label-model", c, err[-300:], mout[:3])
+        return 0
+    if lab != mout:
+        run.mismatch("labeltext", c, lab, mout)
+    # oracle: a reader must be able to tell which column is which
+    run.dist("oracle:label-text")
+    full = [p + n for p, n, w in cols]
+    cut = [(p + n)[:w] for p, n, w in cols]     # the file format: every label cut to the column width
+    if len(lab) != len(cut) or any(a != b for a, b in zip(lab, cut)):
+        bad = [(a, b) for a, b in zip(lab, cut) if a != b][:1] or [(lab, cut)]
+        run.violation("trajlabels:label-text", "label %r where the column is %r (cut to the column width: %r)" % (bad[0][0], full[lab.index(bad[0][0])] if bad[0][0] in lab and len(lab) == len(full) else "?", bad[0][1]), replay)
+    elif len(set(lab)) != len(lab):
+        dup = [t for t in lab if lab.count(t) > 1][0]
+        run.violation("trajlabels:duplicate-label", "the label line %s announces two columns as %r (names %s, bias %s)" % (lab, dup, c["names"], c["bname"]), replay)
+    elif lab != full:
+        bad = [(a, b) for a, b in zip(lab, full) if a != b][0]
+        run.violation("trajlabels:name-truncated", "label %r stands for the column %r (names are cut to the column width)" % bad, replay)
+    return len(lab)
+
+
+def gen_label_case(r, tier):
+    def nm(n):
+        return "".join(r.choice("abcdefghijklmnopqrstuvwxyz") for _ in range(n))
+    kind = r.choice(["short", "short", "exact", "long", "samehead", "prefixclash"])
+    if kind == "short":
+        names = [nm(r.randint(1, 12)), nm(r.randint(1, 12))]
+    elif kind == "exact":
+        names = [nm(18), nm(17)]          # fa_ + 18 = 21: just fits everywhere
+    elif kind == "long":
+        names = [nm(r.randint(19, 26)), nm(r.randint(3, 8))]
+    elif kind == "samehead":
+        h = nm(21)
+        names = [h + "1", h + "2"]
+    else:
+        a = nm(4)
+        names = [a, "v_" + a]
+    if names[0] == names[1]:
+        names[1] += "x"
+    return {"kind": "label", "names": names, "bname": nm(r.choice([3, 19, 24]))}
+
+
 # ------------------------------------------------------------------ correlation function cases
 def acf_scenario(c, k):
     ty = c["vtype"]
@@ -901,8 +1375,8 @@ def acf_scenario(c, k):
     blocks = []
     if c["cross"]:
         extra.append("  corrFuncWithColvar v1")
-        blocks += var_block({"id": 1, "type": ty, "value": True})
-    blocks += var_block({"id": 0, "type": ty, "value": True}, extra)
+        blocks += vvar_block(ty, 1)
+    blocks += vvar_block(ty, 0, extra)
     conf = heredoc(["colvarsTrajFrequency 0"] + blocks)
     L = ["echo CASE %d" % k, "natoms 4", "temperature 300", "dt %r" % c["dt"], "prefix c%ds0" % k, "restartfreq %d" % c["R"], "new"]
     if c["it0"]:
@@ -913,19 +1387,31 @@ def acf_scenario(c, k):
             for vid, x in ((0, ev[1]), (1, ev[2])):
                 if x is None:
                     continue
-                if ty == "z":
+                if ty in ("z", "zper"):
                     L.append("pos %d 0 0 %s" % (2 * vid + 1, hx(x)))
                 else:
                     L.append("pos %d %s %s %s" % (2 * vid + 1, hx(x[0]), hx(x[1]), hx(x[2])))
             L.append("step")
         elif ev[0] == "boundary":
             L.append("runboundary")
+    if c.get("post"):
+        L.append("postrun")
     L += ["flush", "restartfreq 0", "echo END %d" % k]
     return L
 
 
 def vecf(x):
     return [Fr(q) for q in x] if isinstance(x, (list, tuple)) else [Fr(x)]
+
+
+def tval(c, x):
+    """the variable's value for an imposed position: wrapped for the periodic type, normalised for the unit vector"""
+    if c["vtype"] == "zper":
+        return wrapz(x)
+    if c["vtype"] == "unit":
+        n = math.sqrt(x[0] * x[0] + x[1] * x[1] + x[2] * x[2])
+        return [x[0] / n, x[1] / n, x[2] / n]
+    return x
 
 
 def acf_history(c):
@@ -949,8 +1435,8 @@ def acf_history(c):
         else:
             repeated = True
         boundary = False
-        xs = vecf(ev[1])
-        xo = vecf(ev[2]) if c["cross"] else xs
+        xs = vecf(tval(c, ev[1]))
+        xo = vecf(tval(c, ev[2])) if c["cross"] else xs
         rel = it - c["it0"]
         if c["type"] == "velocity":
             if rel == 0:
@@ -1013,6 +1499,9 @@ def check_acf_case(run, c, k, impl_lines, scratch, model):
         run.mismatch("acf:run", c, [l for l in impl_lines if "err=" in l][:6], "every step and configuration succeeds")
         return 0
     calcs, lw = acf_history(c)
+    lw_restart = lw
+    if c.get("post"):
+        lw = len(calcs) - 1          # the end of the run writes the final accumulators
     com, rows = parse_numfile(os.path.join(scratch, "c%ds0.v0.corrfunc.dat" % k))
     if lw is None:
         if rows:
@@ -1036,6 +1525,15 @@ def check_acf_case(run, c, k, impl_lines, scratch, model):
     irows = [(a, b[0]) for a, b in rows]
     # ---- oracle
     orows, n = acf_oracle(c, hist)
+    if c.get("post") and lw_restart != lw and orows not in ("degenerate", None):
+        # is the file the one of the last restart-frequency step?
+        stale = acf_oracle(c, calcs[:lw_restart + 1])[0] if lw_restart is not None else None
+        if (stale is None and not irows) or (stale not in (None, "degenerate") and len(stale) == len(irows)
+                                             and not all(close(a[1], b[1], 1e-6) for a, b in zip(stale, orows))
+                                             and all(close(a[1], b[1], OTOL) for a, b in zip(irows, stale))):
+            run.violation("acf:stale-at-end", "after the end of the run (last step %d) the correlation function file holds the "
+                          "accumulators of step %s" % (calcs[lw][1], calcs[lw_restart][1] if lw_restart is not None else None), replay)
+            return 0
     if orows == "degenerate":
         run.dist("acf:skipped-degenerate-normalisation")
         return 0
@@ -1072,7 +1570,9 @@ def check_acf_case(run, c, k, impl_lines, scratch, model):
 
 def gen_acf_case(r, tier):
     ty = r.choice(["coordinate", "coordinate", "velocity", "coordinate_p2"])
-    vtype = "vec" if ty == "coordinate_p2" or r.random() < 0.25 else "z"
+    vtype = r.choice(["vec", "unit"]) if ty == "coordinate_p2" else r.choice(["z", "z", "vec", "unit", "zper"])
+    if ty == "velocity" and vtype in ("unit", "zper"):
+        vtype = "z"          # velocities of these types go through dist2_lgrad: not modelled
     ln = r.choice([1, 2, 3, 4])
     stride = r.choice([1, 1, 2, 3])
     off = r.choice([0, 0, 0, 1, 2])
@@ -1086,6 +1586,8 @@ def gen_acf_case(r, tier):
     def val():
         if vtype == "z":
             return V.dyadic(r, -4, 4, 2)
+        if vtype == "zper":
+            return V.dyadic(r, -10, 10, 2)
         while True:
             v = [V.dyadic(r, -4, 4, 2) for _ in range(3)]
             if any(v):
@@ -1098,7 +1600,7 @@ def gen_acf_case(r, tier):
         else:
             events.append(["step", val(), val() if cross else None])
     return {"kind": "acf", "type": ty, "vtype": vtype, "len": ln, "stride": stride, "off": off, "norm": r.random() < 0.6,
-            "cross": cross, "R": R, "it0": it0, "dt": dt, "events": events}
+            "cross": cross, "R": r.choice([R, R, 0]), "it0": it0, "dt": dt, "events": events, "post": r.random() < 0.5}
 
 
 # ------------------------------------------------------------------ fixed scenarios (witnesses of the _refuted stage, kept as corpus)
@@ -1130,8 +1632,8 @@ def corpus_cases():
     return cs
 
 
-SCEN = {"traj": traj_scenario, "runave": runave_scenario, "acf": acf_scenario}
-CHECK = {"traj": check_traj_case, "runave": check_runave_case, "acf": check_acf_case}
+SCEN = {"traj": traj_scenario, "runave": runave_scenario, "acf": acf_scenario, "runavev": runavev_scenario, "out": out_scenario, "label": label_scenario}
+CHECK = {"traj": check_traj_case, "runave": check_runave_case, "acf": check_acf_case, "runavev": check_runavev_case, "out": check_out_case, "label": check_label_case}
 
 
 def run_cases(run, cases, unit, model, scratch):
@@ -1162,7 +1664,7 @@ def run_cases(run, cases, unit, model, scratch):
             break
         n = CHECK[c["kind"]](run, c, k, p["lines"], scratch, model)
         total += n
-        key = json.dumps({kk: vv for kk, vv in c.items() if kk != "events"}, sort_keys=True) + "|%d" % len(c["events"])
+        key = json.dumps({kk: vv for kk, vv in c.items() if kk != "events"}, sort_keys=True) + "|%d" % len(c.get("events", []))
         run.count(key, n > 0)
         run.dist(c["kind"])
         if c["kind"] == "traj":
@@ -1172,9 +1674,15 @@ def run_cases(run, cases, unit, model, scratch):
                     run.dist("traj:event:" + e[0])
         elif c["kind"] == "runave":
             run.dist("runave:L=%d,stride=%d" % (c["L"], c["stride"]))
+        elif c["kind"] == "label":
+            run.dist("label")
+        elif c["kind"] == "out":
+            run.dist("out:R=%d" % c["R"])
+        elif c["kind"] == "runavev":
+            run.dist("runavev:%s:start%s" % (c["vtype"], "=0" if c["t0"] == 0 else (":on-grid" if c["t0"] % c["stride"] == 0 else ":off-grid")))
         else:
-            run.dist("acf:%s%s%s" % (c["type"], ":cross" if c["cross"] else "", ":offset" if c["off"] else ""))
-        run.sample({"kind": c["kind"], "case": {kk: vv for kk, vv in c.items() if kk != "events"}, "n_events": len(c["events"]), "compared_values": n})
+            run.dist("acf:%s:%s%s%s" % (c["type"], c["vtype"], ":cross" if c["cross"] else "", ":offset" if c["off"] else ""))
+        run.sample({"kind": c["kind"], "case": {kk: vv for kk, vv in c.items() if kk != "events"}, "n_events": len(c.get("events", [])), "compared_values": n})
     return total
 
 
@@ -1208,6 +1716,12 @@ def check(run):
         cases.append(gen_runave_case(r, run.tier))
     for _ in range(100 * mult):
         cases.append(gen_acf_case(r, run.tier))
+    for _ in range(100 * mult):
+        cases.append(gen_runavev_case(r, run.tier))
+    for _ in range(60 * mult):
+        cases.append(gen_out_case(r, run.tier))
+    for _ in range(30 * mult):
+        cases.append(gen_label_case(r, run.tier))
     total = run_cases(run, cases, unit, model, scratch)
     run.cov["rule"] = ("a case is one scenario (trajectory / running average / correlation function) driven through the engine "
                        "simulator; distinct = distinct configuration+length; nontrivial = at least one written number was compared")
